@@ -35,6 +35,34 @@ Proof.
   cbn [view vClosed] in C. rewrite (pop_closed _ _ S) in C. discriminate.
 Qed.
 
+Lemma runpfkill_closed w w' j : wstep w (ERunPFKill j) = Some w' -> closed (pl w') = true.
+Proof.
+  unfold wstep. destruct (closed (pl w)); [discriminate|].
+  destruct (extPF (pl w)) as [p0 x]. destruct (extAF p0) as [p1 f]. unfold extAR. intros H. inversion H. reflexivity.
+Qed.
+
+(* releases happen exactly once on the path where a finaliser of the current batch of pending work terminates
+   its context: whatever was awaiting release (already collected, in pendingRelease) or still registered is
+   released by the PopContext that follows — ExtractPendingRelease must not have taken it out before *)
+Theorem release_exactly_once_when_finalizer_kills es w w' j k :
+  wrun world0 es = Some w -> wstep w (ERunPFKill j) = Some w' ->
+  wantsR k (tr w') = true ->
+  relc k (tr w') = 1%nat /\ finAfterRel k (epoch k (tr w')) = false.
+Proof.
+  intros H S WR.
+  assert (I : Inv w') by (eapply step_inv; [eapply reachable_inv; exact H|exact S]).
+  destruct I as [_ K]. specialize (K k). split; [|apply (k_far _ K)].
+  destruct (k_wR _ K WR) as [E|(C & _)]; [exact E|].
+  cbn [view vClosed] in C. rewrite (runpfkill_closed _ _ _ S) in C. discriminate.
+Qed.
+
+(* one batch holding a collected release-only value (1), a collected value whose finaliser kills the context (3)
+   and a finaliser that would have run after it (2): 3 is called, 2 is dropped, 1 is released once *)
+Example finalizer_kills_example :
+  exists w, wrun world0 [EMark 1 2; EMark 2 1; EMark 3 1; EDrop 1; EDrop 2; EDrop 3; EGoGC 1; EGoGC 2; EGoGC 3; ERunPFKill 0] = Some w /\
+            tr w = [Rel 1; Fin 3; Marked 3 1; Marked 2 1; Marked 1 2] /\ relc 1 (tr w) = 1%nat /\ finc 2 (tr w) = 0%nat.
+Proof. eexists. vm_compute. repeat split; reflexivity. Qed.
+
 (* the pending-finaliser path only ever returns values that the program could
    not reach and that no running finaliser held when the Go collector queued them *)
 Theorem never_finalized_while_reachable es w k :
